@@ -238,8 +238,29 @@ func (publisher *Publisher) Places() map[string]*place {
 			placeTags = append(placeTags, placeTag)
 		}
 
+		// documentPlaces is a map: places that are spelled the same (and,
+		// further down, events that sort the same: two people of the same
+		// name who died in the same year in the same place) are kept in the
+		// order of the document, not in the order the map happens to have.
+		documentOrder := map[*gedcom.PlaceNode]int{}
+		var walk func(nodes gedcom.Nodes)
+		walk = func(nodes gedcom.Nodes) {
+			for _, node := range nodes {
+				if placeTag, ok := node.(*gedcom.PlaceNode); ok {
+					documentOrder[placeTag] = len(documentOrder)
+				}
+
+				walk(node.Nodes())
+			}
+		}
+		walk(publisher.doc.Nodes())
+
 		sort.SliceStable(placeTags, func(i, j int) bool {
-			return placeTags[i].Value() < placeTags[j].Value()
+			if placeTags[i].Value() != placeTags[j].Value() {
+				return placeTags[i].Value() < placeTags[j].Value()
+			}
+
+			return documentOrder[placeTags[i]] < documentOrder[placeTags[j]]
 		})
 
 		for _, placeTag := range placeTags {
@@ -288,7 +309,7 @@ func (publisher *Publisher) Places() map[string]*place {
 		for key := range publisher.placesMap {
 			// Make sure the events are sorted otherwise the pages will be
 			// different.
-			sort.Slice(publisher.placesMap[key].nodes, func(i, j int) bool {
+			sort.SliceStable(publisher.placesMap[key].nodes, func(i, j int) bool {
 				left := publisher.placesMap[key].nodes[i]
 				right := publisher.placesMap[key].nodes[j]
 
